@@ -125,14 +125,22 @@ Proof.
   rewrite Ea, Eb. cbn [bind]. eexists; reflexivity.
 Qed.
 
+Lemma enc_out_raw_total : forall ms ords,
+  no_nil ms -> Forall (fun o => match o with Some m => wire_reachable m | None => True end) ms ->
+  exists ls, enc_out_raw flat flat_svg ords ms = Ok ls.
+Proof.
+  induction ms as [|[m|] r IH]; intros ords Hn Hw; [exists []; reflexivity| |].
+  - inversion Hn; subst. inversion Hw; subst. cbn [enc_out_raw].
+    destruct (enc_msg_total (match ords with o :: _ => o | [] => om_map m end) m H3) as [ls E]. rewrite E.
+    destruct (IH (tl ords) H2 H4) as [rs E2]. rewrite E2. cbn [bind]. eexists; reflexivity.
+  - inversion Hn; subst. congruence.
+Qed.
+
 Theorem enc_out_total : forall ms ords,
   no_nil ms -> Forall (fun o => match o with Some m => wire_reachable m | None => True end) ms ->
   exists ls, enc_out flat flat_svg ords ms = Ok ls.
 Proof.
-  induction ms as [|[m|] r IH]; intros ords Hn Hw; [exists []; reflexivity| |].
-  - inversion Hn; subst. inversion Hw; subst. cbn [enc_out].
-    destruct (enc_msg_total (match ords with o :: _ => o | [] => om_map m end) m H3) as [ls E]. rewrite E.
-    destruct (IH (tl ords) H2 H4) as [rs E2]. rewrite E2. cbn [bind]. eexists; reflexivity.
-  - inversion Hn; subst. congruence.
+  intros ms ords Hn Hw. destruct (enc_out_raw_total ms ords Hn Hw) as [ls E].
+  unfold enc_out. rewrite E. cbn [bind]. eexists; reflexivity.
 Qed.
 End EncTotal.
